@@ -46,6 +46,8 @@ HIST_KEYS = [("disc", (3,)), ("disc", (2,)), ("multi", (2, 3)), ("multi", (3,)),
 def sig(t, v):
     cl = (v.clauses[0] if v.clauses else v.invariant).split(":")[0]
     via = v.event.get("via", "") if isinstance(v.event, dict) else ""
+    if cl == "Raises" and isinstance(v.event, dict):
+        cl = f"Raises[{v.event.get('exc', '').split(':')[0]}]"
     c = t["cfg"]
     return f"dist:{c['level']}:{c['shape']}:history:{via or 'trace'}:{cl}"
 
@@ -176,17 +178,26 @@ def replay(path):
     if rp.get("kind") == "kernel-case":
         c = rp["case"]
         key = dist.shape_key(c)
+        # the case is replayed inside batches of its neighbours in TLC's grid (same shape; Box: same log_std)
+        r = tlc.dump("Dist_MC", "Dist_Dumpq.cfg" if d.get("tier", "quick") == "quick" else "Dist_Dump.cfg", heap="8g")
+        same = [x for x in r.tagged.get("CASE", []) if dist.shape_key(x) == key and (key[0] != "box" or x["ks"] == c["ks"])]
+        i = next((j for j, x in enumerate(same) if _brief(x) == _brief(c)), None)
+        if i is None:
+            same, i = [c] + same, 0
+        lo = max(0, min(i - 30, len(same) - 61))
+        cs = same[lo:lo + 61]
         k = dist.BoxKernel(key[1][0], seed, squash="+squash" in rp["shape"]) if key[0] == "box" else dist.DiscKernel(key, seed)
-        getattr(k, "run_" + rp["level"].lower())([c, c, c, c, c])
-        print(f"case: {_brief(c)}")
-        hits = [f for f in k.fails if f.signature == d["signature"]]
-        for f in (hits or k.fails)[:5]:
-            print(f"  {f.signature}: {f.detail}")
+        getattr(k, "run_" + rp["level"].lower())(cs)
+        print(f"case: {_brief(c)}   (replayed with {len(cs) - 1} neighbouring cases of TLC's grid)")
+        mine = [f for f in k.fails if _brief(f.case) == _brief(c)]
+        hits = [f for f in mine if f.signature == d["signature"]] or [f for f in k.fails if f.signature == d["signature"]]
+        for f in (hits or mine)[:5]:
+            print(f"  {f.signature}: {f.detail}   case={_brief(f.case)}")
         if hits:
             print("DISAGREES with the specification")
             return 1
-        print("the real code agrees with the specification on this case" + (" (other clauses failed)" if k.fails else ""))
-        return 1 if k.fails else 0
+        print("the real code agrees with the specification on this case" + (" (other clauses failed)" if mine else ""))
+        return 1 if mine else 0
     if rp.get("kind") == "rejected-trace":
         c = rp["trace"]["cfg"]
         shape = c["shape"]
